@@ -6,8 +6,10 @@ import (
 	"bytes"
 	"errors"
 	"fmt"
+	"runtime"
 	"strings"
 	"sync"
+	"sync/atomic"
 	"testing"
 
 	"go.uber.org/zap"
@@ -499,8 +501,86 @@ func TestC10SinksExhaustive(t *testing.T) {
 	t.Logf("enumerated %d small topologies", n)
 }
 
-func TestC10Fields(t *testing.T) { rapid.Check(t, propC10Fields) }
-func TestC10Sinks(t *testing.T)  { rapid.Check(t, propC10Sinks) }
+// lockedReports serialises error-output writes and keeps each one.
+type lockedReports struct {
+	mu      sync.Mutex
+	reports []string
+}
+
+func (l *lockedReports) Write(p []byte) (int, error) {
+	// the bytes must be consumed within the call; give other goroutines a
+	// chance to run first, the way a slow destination would
+	runtime.Gosched()
+	l.mu.Lock()
+	defer l.mu.Unlock()
+	l.reports = append(l.reports, string(p))
+	return len(p), nil
+}
+func (l *lockedReports) Sync() error { return nil }
+
+// propC10Concurrent: under concurrent logging through a tee with a failing
+// core every entry still reaches the healthy cores and every failure is
+// reported exactly once, each report intact.
+func propC10Concurrent(t *rapid.T) {
+	g := rapid.IntRange(2, 8).Draw(t, "goroutines")
+	per := rapid.IntRange(1, 80).Draw(t, "entriesPerGoroutine")
+	failEvery := rapid.IntRange(1, 3).Draw(t, "failEvery")
+	dumpProgram(map[string]any{"property": "C10", "goroutines": g, "per": per, "failEvery": failEvery})
+	healthy := &tornSink{}
+	var failN atomic.Int64
+	failing := zapcore.AddSync(writerFunc(func(p []byte) (int, error) {
+		if int(failN.Add(1))%failEvery == 0 {
+			return 0, errors.New("sinkfail-" + strings.Repeat("x", 40))
+		}
+		return len(p), nil
+	}))
+	cfg := zapcore.EncoderConfig{MessageKey: "m", TimeKey: "t", EncodeTime: zapcore.ISO8601TimeEncoder}
+	reports := &lockedReports{}
+	lg := zap.New(zapcore.NewTee(
+		zapcore.NewCore(zapcore.NewJSONEncoder(cfg), zapcore.Lock(failing), zapcore.DebugLevel),
+		zapcore.NewCore(zapcore.NewJSONEncoder(cfg), zapcore.Lock(healthy), zapcore.DebugLevel),
+	), zap.ErrorOutput(reports))
+	var wg sync.WaitGroup
+	for i := 0; i < g; i++ {
+		wg.Add(1)
+		go func(i int) {
+			defer wg.Done()
+			for j := 0; j < per; j++ {
+				lg.Info(fmt.Sprintf("entry-%d-%d", i, j), zap.Reflect("r", map[string]int{"g": i}), zap.String("pad", strings.Repeat("p", j%50)))
+			}
+		}(i)
+	}
+	wg.Wait()
+	total := g * per
+	lines := strings.Split(strings.TrimSuffix(string(healthy.buf), "\n"), "\n")
+	if len(lines) != total {
+		t.Fatalf("healthy core received %d lines for %d entries", len(lines), total)
+	}
+	for i, ln := range lines {
+		if why, _ := checkJSONLine([]byte(ln), ""); why != "" {
+			t.Fatalf("healthy core line %d corrupted: %s: %q", i, why, clipS(ln))
+		}
+	}
+	wantReports := total / failEvery
+	if len(reports.reports) != wantReports {
+		t.Fatalf("%d failing writes but %d reports on the error output", wantReports, len(reports.reports))
+	}
+	for i, r := range reports.reports {
+		idx := strings.Index(r, " write error: ")
+		if idx < 0 || !strings.HasSuffix(r, "sinkfail-"+strings.Repeat("x", 40)+"\n") || strings.Count(r, "\n") != 1 || strings.Contains(r, "{") {
+			t.Fatalf("report %d on the error output is corrupted: %q", i, clipS(r))
+		}
+	}
+	statCase("C10", true, fmt.Sprintf("conc|g%d per%d f%d", g, per/10, failEvery), "concurrent failure reports")
+}
+
+type writerFunc func([]byte) (int, error)
+
+func (f writerFunc) Write(p []byte) (int, error) { return f(p) }
+
+func TestC10Fields(t *testing.T)     { rapid.Check(t, propC10Fields) }
+func TestC10Concurrent(t *testing.T) { rapid.Check(t, propC10Concurrent) }
+func TestC10Sinks(t *testing.T)      { rapid.Check(t, propC10Sinks) }
 
 func TestRegressC10(t *testing.T) {
 	// F9: nil / panicking element in zap.Stringers must not escape the log call
